@@ -1,6 +1,6 @@
 (* C09 — penalty methods keep every constraint and build f + weighted squared violations. *)
 Require Import Ommx.Num Ommx.Poly Ommx.Msg Ommx.Eval Ommx.Tree Ommx.Arith Ommx.ArithProofs Ommx.Inst
-        Ommx.Transform Ommx.TransformProofs.
+        Ommx.InstProofs Ommx.PEvalProofs Ommx.Transform Ommx.TransformProofs Ommx.SubstInst Ommx.ParamInst Ommx.PenaltyInst.
 From Coq Require Import String.
 Close Scope string_scope. Open Scope list_scope. Open Scope Qc_scope.
 
@@ -56,3 +56,40 @@ Proof.
   split; [split; [exact Logic.I|repeat constructor]|]. eexists. split; [vm_compute; reflexivity|].
   vm_compute. repeat split.
 Qed.
+
+
+(* ---------------------------------------------------------------------------------------------
+   INSTANCE LEVEL (PenaltyInst.v), C09 composed with C10: fixing the weights of the penalty form and
+   EVALUATING at x gives f(x) + sum_k w_k g_k(x)^2 (uniform: f(x) + w sum_k g_k(x)^2); no active
+   constraint is left; the evaluated records are the previously removed constraints followed by the
+   former active ones in order (own id / equality / metadata / value, reason penalty_method /
+   uniform_penalty_method); feasible_relaxed is always true, feasible <=> all of them hold. *)
+Theorem C09_penalty_eval : forall tiny, tiny_exact tiny -> forall Ins P theta I2 x sol,
+  iwf Ins -> penalty tiny Ins = Some P ->
+  with_parameters tiny P theta = Some I2 -> inst_eval I2 x = Some sol ->
+  (forall rho, agrees rho x -> agrees rho theta ->
+     so_objective sol = denote (fn_or_zero (i_obj Ins)) rho
+                        + wpen_sum theta rho (i_cs Ins) (next_id (i_dvs Ins))) /\
+  (forall j, (j < List.length (i_cs Ins))%nat -> sget theta (next_id (i_dvs Ins) + N.of_nat j) <> None) /\
+  penalized_constraints (A "penalty_method") Ins I2 x sol /\
+  i_dvs I2 = i_dvs Ins /\ i_sense I2 = i_sense Ins /\ i_deps I2 = i_deps Ins /\ i_hints I2 = i_hints Ins /\
+  i_params I2 = Some theta /\ so_dvs sol = i_dvs Ins.
+Proof. exact penalty_eval. Qed.
+Print Assumptions C09_penalty_eval.
+
+Theorem C09_uniform_penalty_eval : forall tiny, tiny_exact tiny -> forall Ins P theta I2 x sol,
+  iwf Ins -> uniform_penalty tiny Ins = Some P ->
+  with_parameters tiny P theta = Some I2 -> inst_eval I2 x = Some sol ->
+  (forall rho, agrees rho x -> agrees rho theta ->
+     so_objective sol = denote (fn_or_zero (i_obj Ins)) rho
+                        + weight theta (next_id (i_dvs Ins)) * sq_sum rho (i_cs Ins)) /\
+  sget theta (next_id (i_dvs Ins)) <> None /\
+  penalized_constraints (A "uniform_penalty_method") Ins I2 x sol /\
+  i_dvs I2 = i_dvs Ins /\ i_sense I2 = i_sense Ins /\ i_deps I2 = i_deps Ins /\ i_hints I2 = i_hints Ins /\
+  i_params I2 = Some theta /\ so_dvs sol = i_dvs Ins.
+Proof. exact uniform_penalty_eval. Qed.
+Print Assumptions C09_uniform_penalty_eval.
+Check penalty_eval_fresh.
+Check uniform_penalty_eval_fresh.
+Check penalty_eval_nonvacuous.
+Print Assumptions penalty_eval_nonvacuous.
